@@ -27,6 +27,12 @@ func runC02(c *Ctx) {
 			// pinned witness of a repaired defect (known_findings.txt): entry point wraps past the last address
 			bc = &BattleCase{M: 10, P: 2, C: 30, R: 10, W: 10, Warriors: []*BWarrior{{Code: []mars.Insn{tDat.Code[0], tImp.Code[0]}, Start: 1, Off: 9}, {Code: []mars.Insn{tImp.Code[0]}, Off: 4}}}
 		}
+		if idx%97 == 96 {
+			// cycle limits are unsigned 64-bit numbers: with a limit beyond 2^32 / 2^63 the battle can only end by death;
+			// the reference gets a limit it never reaches and battles that do not end within 400 cycles are cut there
+			bc.HugeC = []uint64{1 << 32, 1<<32 + 1, 1<<63 - 1, 1 << 63, 1<<63 + 3, ^uint64(0), ^uint64(0) - 1, 1<<63 + uint64(r.Intn(50))}[r.Intn(8)]
+			bc.C = 1 << 62
+		}
 		nw := len(bc.Warriors)
 		rec := &popRecorder{}
 		var s g.ReportingSimulator
@@ -49,6 +55,10 @@ func runC02(c *Ctx) {
 		}
 		cycles := 0
 		for !ref.Decided() {
+			if bc.HugeC != 0 && cycles >= 400 {
+				c.Inc("huge_cycle_limit_battles_cut_at_400")
+				return
+			}
 			if apiDecided(s) {
 				c.Violate("C02:decided-early", fmt.Sprintf("after %d cycles gmars looks decided (count=%d living=%d cycle=%d/%d) but the reference battle is not", cycles, s.WarriorCount(), s.WarriorLivingCount(), s.CycleCount(), s.MaxCycles()), bc.describe())
 				return
@@ -160,6 +170,10 @@ func runC02(c *Ctx) {
 			return
 		}
 		c.Inc("run_vs_step_compared")
+		if bc.HugeC != 0 {
+			c.Inc("huge_cycle_limit_battles_ended_by_death")
+			c.Nontrivial(fmt.Sprintf("%d|huge-cycle-limit|%d", nw, bc.HugeC>>62))
+		}
 		c.Inc(fmt.Sprintf("battles_%dw", nw))
 		if len(events) > 0 {
 			var ev []string
